@@ -27,7 +27,10 @@ for name in names:
         wt = "/tmp/seedrun_%s_%d" % (pid, os.getpid())
         subprocess.run(["git", "-C", "/repo", "worktree", "add", "--detach", "-q", wt, "HEAD"], check=True)
         if subprocess.run(["git", "-C", wt, "apply", patch]).returncode != 0:
-            subprocess.run(["git", "-C", wt, "apply", "--3way", patch], check=True)
+            if subprocess.run(["git", "-C", wt, "apply", "--3way", patch]).returncode != 0:
+                subprocess.run(["git", "-C", "/repo", "worktree", "remove", "--force", wt])
+                print("%s/%s: PATCH DOES NOT APPLY to HEAD (re-base it as patch_rebased.diff)" % (pid, name))
+                continue
     t0 = time.time()
     try:
         p = subprocess.run([os.path.join(ROOT, "check"), pid, "--tier", tier], cwd=ROOT,
